@@ -10,6 +10,9 @@ import GocoinV.Proofs.C16Snappy
 import GocoinV.Proofs.C16Walk
 import GocoinV.Proofs.C16Main
 import GocoinV.Proofs.C16Live
+import GocoinV.Proofs.C16Listing
+import GocoinV.Proofs.C16SnappyLen
+import GocoinV.Proofs.C16Trust
 namespace GocoinV.Props.C16
 open GocoinV GocoinV.BlockDB
 
@@ -216,20 +219,145 @@ theorem flush_writes_everything (env : Env) (ops : List Op) :
   have hl := run_live env ops init init_live
   exact ⟨(writeAll_live env s.queue.length s hl (Nat.le_refl _)).2, (flush_all_written env s hl).2⟩
 
+/-! ## across close + reopen: the index-file half of the invariant (`Proofs/C16Disk*.lean`, `C16Restart.lean`) -/
+
+/-- what the restart theorems ask of a history: the hash handed to BlockAdd is the hash of the block's 80-byte header (this
+    is how LoadBlockIndex recomputes it), the block, its stored (compressed) form and the height fit the record's 32-bit
+    fields (`Op.wf`); fewer than 2^31 operations (data-file numbers and 64-bit offsets in the record cannot wrap) -/
+example : Op.wf (toyEnv true) (.add (hashW blkA) 10 1 false blkA) := by
+  refine ⟨by decide, by decide, by decide, by decide⟩
+
+/-- store_refines_map ACROSS RESTARTS, retention off: for EVERY history from the empty directory — add / get / length /
+    mark-trusted / mark-invalid / idle-flush / close / reopen in any order and number, options changing from session to
+    session (cache size, compression, maximum data-file size; `keep = 0` in every session) — every `get` of a key that was
+    added and never marked invalid returns the bytes of its first add and the latest trusted flag, every `length` its size:
+    from the cache, from the queue, or from disk after any number of restarts. The proof carries, next to the data-file
+    half (`Ref`), the index-file half `Disk`: every written record's 136 bytes at `ipos` describe it (file number, offset,
+    stored length, flag bits incl. later trusted / invalid updates), no two non-invalid records of the file share a key,
+    LoadBlockIndex rebuilds exactly these records with the same positions and an append position at or above each of
+    them, and so re-establishes `Ref`. -/
+theorem store_refines_map_restarts (env : Env)
+    (hrt : ∀ x : Bytes, x.length ≤ 0xffffffff → env.dec (env.enc x) = some x) (hne : ∀ x, env.enc x ≠ [])
+    (hfix : env.advInvalid = Gen.BlockDBFacts.advInvalid) (ops : List Op)
+    (hops : ∀ op ∈ ops, Op.wf env op ∧ op.keep0) (hlen : ops.length < 2^31) :
+    AllHold (specRun {} ops) (run env init ops).2 :=
+  restart_refines env ⟨hrt, hne⟩ (by rw [hfix]; exact fixed_code) ops hops hlen
+
+/-- the claims survive the restart: on this history the specification demands A's bytes after close + reopen -/
+example : specRun {} [.reopen optsW, .add (hashW blkA) 10 1 false blkA, .close, .reopen optsW, .get (hashW blkA)]
+    = [.nothing, .nothing, .nothing, .nothing, .data blkA false] := by decide
+
+/-- well-formed operations for the real codec, without reference to the encoder: the hash is the hash of the header, the
+    block is at most 2^29 bytes (blocks are ≤ 4 MB), the height fits 32 bits -/
+def Op.wfPlain (hash : Bytes → Bytes) : Op → Prop
+  | .add h height _ _ raw => h = hash (raw.take 80) ∧ raw.length ≤ 2^29 ∧ height < 2^32
+  | _ => True
+
+/-- The same with the snappy model as codec — the environment `oracle_c16` runs (any header-hash function): no hypothesis
+    about the codec is left; that the stored form fits the 32-bit length field follows from
+    `(Snappy.encode x).length ≤ 11 + 6·x.length` (Proofs/C16SnappyLen.lean, from the decoder's side). -/
+theorem store_refines_map_restarts_snappy (hash : Bytes → Bytes) (ops : List Op)
+    (hops : ∀ op ∈ ops, Op.wfPlain hash op ∧ op.keep0) (hlen : ops.length < 2^31) :
+    AllHold (specRun {} ops) (run (snappyEnv hash Gen.BlockDBFacts.advInvalid) init ops).2 := by
+  refine restart_refines _ (snappyEnv_ok hash _) fixed_code ops ?_ hlen
+  intro op hop
+  obtain ⟨h1, h2⟩ := hops op hop
+  refine ⟨?_, h2⟩
+  cases op with
+  | add h height tx tr raw =>
+    obtain ⟨a1, a2, a3⟩ := h1
+    refine ⟨a1, by omega, ?_, a3⟩
+    have := Snappy.encode_length_le raw (by omega)
+    show (Snappy.encode raw).length ≤ 0xffffffff
+    omega
+  | _ => trivial
+
+example : Op.wfPlain (fun h => h.take 32) (.add (hashW blkA) 10 1 false blkA) := ⟨by decide, by decide, by decide⟩
+
+/-- reopen_index, history level, EVERY option combination (retention and backup included — the index file is never
+    pruned): after any history that leaves the store closed, NewBlockDBExt + LoadBlockIndex hands the walk callback, for
+    every key that was added and never marked invalid, exactly ONE entry, and it carries the hash of the block's header,
+    the header, the height and transaction count given to the first BlockAdd and the block's size; every listed entry
+    belongs to a key that was added; and the append position is the end of the index file (appending continues behind
+    every listed record). `specFinal {} ops` is the durable map after the history. -/
+theorem reopen_index (env : Env) (hfix : env.advInvalid = Gen.BlockDBFacts.advInvalid) (ops : List Op)
+    (hops : ∀ op ∈ ops, Op.wf env op) (hlen : ops.length < 2^31)
+    (hclosed : (run env init ops).1.isOpen = false) (o : Opts) :
+    ∃ ws, (step env (run env init ops).1 (.reopen o)).2 = .walk ws ∧
+      (∀ k e, AL.get (specFinal {} ops).m k = some e → e.tainted = false →
+        ws.filter (fun w => decide (keyOf w.hash = k)) =
+          [⟨env.hash (e.raw.take 80), e.raw.take 80, e.height, e.raw.length, e.txcount⟩]) ∧
+      (∀ w ∈ ws, ∃ e, AL.get (specFinal {} ops).m (keyOf w.hash) = some e) ∧
+      (step env (run env init ops).1 (.reopen o)).1.maxidxfilepos = (run env init ops).1.fs.idx.length := by
+  have hadv : env.advInvalid = true := by rw [hfix]; exact fixed_code
+  have hC := run_core env hadv ops init {} 0 (init_core env) hops (by omega)
+  have e : step env (run env init ops).1 (.reopen o) = reopen env (run env init ops).1.fs o := by
+    unfold step; simp [hclosed]
+  rw [e]
+  exact reopen_lists env hadv _ _ _ hC (by omega) hclosed o
+
+example : (run (toyEnv true) init [.reopen optsW, .add (hashW blkA) 10 1 false blkA, .close]).1.isOpen = false := by decide
+
+/-- … and the trusted flags, EVERY option combination: after that restart the rebuilt index record of every key that was
+    added and never marked invalid has the LATEST trusted flag of the history (raised by BlockTrusted or a trusted BlockAdd,
+    before or after the record was written — `specFinal` tracks it), the block's size, and the data-file number / offset /
+    stored length the record had before the restart. -/
+theorem reopen_index_trusted (env : Env) (hfix : env.advInvalid = Gen.BlockDBFacts.advInvalid) (ops : List Op)
+    (hops : ∀ op ∈ ops, Op.wf env op) (hlen : ops.length < 2^31)
+    (hclosed : (run env init ops).1.isOpen = false) (o : Opts) :
+    ∀ k e, AL.get (specFinal {} ops).m k = some e → e.tainted = false →
+      ∃ r0 r, AL.get (run env init ops).1.index k = some r0 ∧
+        AL.get (reopen env (run env init ops).1.fs o).1.index k = some r ∧ r.trusted = e.trusted ∧
+        r.olen = e.raw.length ∧ r.fpos = r0.fpos ∧ r.blen = r0.blen ∧ r.datfileidx = r0.datfileidx := by
+  have hadv : env.advInvalid = true := by rw [hfix]; exact fixed_code
+  have hC := run_core env hadv ops init {} 0 (init_core env) hops (by omega)
+  have hT := run_trust env hadv ops init {} 0 (init_core env) init_trust hops (by omega)
+  intro k e he ht
+  obtain ⟨r0, a1⟩ := hC.disk.ent k e he ht
+  obtain ⟨r, b1, b2, b3, b4, b5, b6⟩ := reopen_index_flags env hadv _ _ _ hC (by omega) hclosed o k e r0 he ht a1
+  exact ⟨r0, r, a1, b1, by rw [b2]; exact hT k e r0 he ht a1, b3, b4, b5, b6⟩
+
+/-! ## retention (DataFilesKeep ≠ 0, backup of old files): the statement, and the known finding on the model -/
+
+/-- OPEN — stated, NOT proved: store_refines_map at full strength, every option combination. "Within the configured
+    retention" is defined from the model's file set: `FS.lost` (ghost) collects the numbers of data files deleted by
+    `removeDatFile` without backup and of files shadowed by LoadBlockIndex's O_CREATE while the original sits in `oldat/`
+    (exactly the mechanism of the known finding `backup-shadowed-by-new-file`); `claimR` makes no claim for a key whose
+    written record points into such a file. With `keep = 0` in every session nothing is ever lost and this is
+    `store_refines_map_restarts` (proved). Decided on every generated history by the Go-map reference of the harness. -/
+def store_refines_map_retention_statement : Prop :=
+  ∀ (env : Env), (∀ x : Bytes, x.length ≤ 0xffffffff → env.dec (env.enc x) = some x) → (∀ x, env.enc x ≠ []) →
+    env.advInvalid = Gen.BlockDBFacts.advInvalid →
+    ∀ ops : List Op, (∀ op ∈ ops, Op.wf env op) → ops.length < 2^31 →
+      AllHold (specRunR env init {} ops) (run env init ops).2
+
+def blk200 (tag : UInt8) : Bytes := mkBlock tag 200
+def optsKB : Opts := ⟨1, 200, 1, true, false⟩
+/-- the known finding `backup-shadowed-by-new-file` as a model history: three 200-byte blocks in data files 0, 1, 2 (file 0
+    is moved to oldat/), B and C marked invalid, restart, get A -/
+def shadowHistory : List Op :=
+  [.reopen optsKB, .add (hashW (blk200 1)) 1 1 false (blk200 1), .add (hashW (blk200 2)) 2 1 false (blk200 2),
+   .add (hashW (blk200 3)) 3 1 false (blk200 3), .idle, .invalid (hashW (blk200 2)), .invalid (hashW (blk200 3)), .close,
+   .reopen optsKB, .get (hashW (blk200 1))]
+
+set_option maxRecDepth 1000000 in
+/-- On the known finding the unconditional claim is FALSE of the model (and of the code: corpus/C16/backup-fallback-after-
+    invalid.json replays it): the durable map demands A's bytes, the store answers with a short read — and the retention
+    claim `claimR` excludes exactly this `get`: file 0 is in `FS.lost` because the restart created a new, empty file 0
+    in the main directory over the one in oldat/. -/
+theorem backup_shadowed_counterexample :
+    (specRun {} shadowHistory).getLast? = some (.data (blk200 1) false) ∧
+    (run (toyEnv true) init shadowHistory).2.getLast? = some (.getErr .shortRead false) ∧
+    (specRunR (toyEnv true) init {} shadowHistory).getLast? = some .nothing ∧
+    (run (toyEnv true) init shadowHistory).1.fs.lost = [0] := by decide
+
 /-
-  OPEN: store_refines_map, full strength : the statement of `store_refines_map_partial` for histories WITH close + reopen
-        in the middle and for `keep ≠ 0` (then with "or the block's data file fell out of retention" in the claim).
-        Missing: (1) the index-file half linking records to operations across a restart — one `mkRecord` per written
-        block at its `ipos`, flag bytes only OR-ed there, LoadBlockIndex rebuilds every non-invalid record's
-        (fpos, blen, datfileidx, olen, flags) and an append position at or above every listed record's data; (2) retention.
-        NOTE (2) is not a formality: the known finding `backup-shadowed-by-new-file` (known_findings.txt) is a history with
-        keep=1, backup=true on which the statement is FALSE of the code. Decided on every generated history (restarts,
-        retention, option changes included) by the Go-map reference of the harness.
-  OPEN: reopen_index (listing part, history level) : the walk after a restart lists exactly the stored non-invalid
-        blocks of the HISTORY with height/size/txcount. Proved so far: the position part for all histories
-        (`append_position_invariant`), at record level that the walk is exactly the non-invalid records
-        (`reopen_lists_noninvalid_records`) and that a written record lists with the block's own fields
-        (`written_record_listed`); missing is the same index-file invariant as in (1).
+  OPEN: store_refines_map for `keep ≠ 0` — `store_refines_map_retention_statement` above. Proved: every history with
+        `keep = 0` (`store_refines_map_restarts`), the index-file half for ALL option combinations (`reopen_index`,
+        `reopen_index_trusted`, `append_position_invariant`, `flush_writes_everything`). Missing for retention: the data-file
+        half `Ref` with the file looked up in the main directory first, then oldat/ (as BlockGet does), `maybeRoll` /
+        `loadCleanup` moving or deleting files, and the refinement relation taken against the specification with the keys
+        of lost files tainted (`Ref` is antitone in taint, `keyLost` is monotone along every operation).
 -/
 
 end GocoinV.Props.C16
